@@ -6,7 +6,9 @@ b = json.load(open('/root/.vp/BASELINE.json'))
 with tempfile.TemporaryDirectory() as d:
     f = os.path.join(d, 'j.xml')
     cmd = b['cmd'].replace('<file>', f)
-    r = subprocess.run(cmd, shell=True, capture_output=True, text=True)
+    # test-suite runs on this machine must not overlap (fixed ZMQ port in the progressbar tests): shared lock
+    import shlex
+    r = subprocess.run('flock /tmp/pytest.lock sh -c %s' % shlex.quote(cmd), shell=True, capture_output=True, text=True)
     t = ET.parse(f)
     passed = set()
     for tc in t.iter('testcase'):
